@@ -44,7 +44,8 @@ func spec_nz(table [][]int, i int, k int) bool {
 }
 
 //@ func PackTable
-//@ props C05 C14
+//@ props C05
+//@ props_tagged_only C14
 //@ results ret, row, check
 //@ requires len(table) >= 1
 //@ requires forall i int :: 0 <= i && i < len(table) ==> len(table[i]) == len(table[0])
@@ -68,12 +69,15 @@ func spec_nz(table [][]int, i int, k int) bool {
 //@ loop 2: invariant forall i2 int :: has(nonZeroPos, i2) ==> 0 <= i2 && i2 < i
 //@ loop 2: invariant forall i2, u int :: 0 <= i2 && i2 < len(table) && 0 <= u && u < len(nonZeroPos[i2]) ==> spec_nz(table, i2, nonZeroPos[i2][u])
 //@ loop 2: invariant forall i2, k int :: 0 <= i2 && i2 < i && spec_nz(table, i2, k) ==> (exists u int :: 0 <= u && u < len(nonZeroPos[i2]) && nonZeroPos[i2][u] == k)
+//@ loop 2: invariant forall i2, k int :: 0 <= i2 && i2 < i && spec_nz(table, i2, k) ==> has(nonZeroPos, i2)
 //@ loop 2: decreases len(table) - i
 //@ loop 3: invariant 0 <= j && j <= len(table[i]) && 0 <= i && i < len(table)
 //@ loop 3: invariant forall i2 int :: has(nonZeroPos, i2) ==> 0 <= i2 && i2 <= i
 //@ loop 3: invariant forall i2, u int :: 0 <= i2 && i2 < len(table) && 0 <= u && u < len(nonZeroPos[i2]) ==> spec_nz(table, i2, nonZeroPos[i2][u])
 //@ loop 3: invariant forall i2, k int :: 0 <= i2 && i2 < i && spec_nz(table, i2, k) ==> (exists u int :: 0 <= u && u < len(nonZeroPos[i2]) && nonZeroPos[i2][u] == k)
 //@ loop 3: invariant forall k int :: 0 <= k && k < j && spec_nz(table, i, k) ==> (exists u int :: 0 <= u && u < len(nonZeroPos[i]) && nonZeroPos[i][u] == k)
+//@ loop 3: invariant forall i2, k int :: 0 <= i2 && i2 < i && spec_nz(table, i2, k) ==> has(nonZeroPos, i2)
+//@ loop 3: invariant forall k int :: 0 <= k && k < j && spec_nz(table, i, k) ==> has(nonZeroPos, i)
 //@ loop 3: decreases len(table[i]) - j
 //
 // step 3: first-fit placement, rows in sorted order; rowCount[t].a == perm(t) after the sort.
@@ -106,14 +110,19 @@ func spec_nz(table [][]int, i int, k int) bool {
 //@ loop 9: invariant len(ret) == maxIndex+1 && len(check) == maxIndex+1
 //@ loop 9: invariant forall i2, k int :: seen(i2) && 0 <= i2 && i2 < len(table) && spec_nz(table, i2, k) ==>
 //@     ret[row[i2]+k] == table[i2][k] && check[row[i2]+k] == i2
-//@ loop 9: invariant forall p int :: 0 <= p && p <= maxIndex ==> check[p] == -1 ||
+//@ loop 9: invariant forall p int :: 0 <= p && p <= maxIndex ==> (check[p] == -1 && ret[p] == 0) ||
 //@     (0 <= check[p] && check[p] < len(table) && seen(check[p]) && spec_nz(table, check[p], p-row[check[p]]))
+//@ loop 9: invariant [C14] len(row) == len(table) && 0 <= maxIndex
+//@ loop 9: invariant [C14] forall i2 int :: has(nonZeroPos, i2) ==> 0 <= i2 && i2 < len(table)
+//@ loop 9: invariant [C14] forall i2, k int :: 0 <= i2 && i2 < len(table) && spec_nz(table, i2, k) ==> 0 <= row[i2]+k && row[i2]+k <= maxIndex && has(nonZeroPos, i2)
+//@ loop 9: invariant [C14] forall i1, k1, i2, k2 int :: 0 <= i1 && i1 < len(table) && spec_nz(table, i1, k1) &&
+//@     0 <= i2 && i2 < len(table) && spec_nz(table, i2, k2) && row[i1]+k1 == row[i2]+k2 ==> i1 == i2
 //@ loop 9: order_independent by_post
 //@ loop 10: invariant len(ret) == maxIndex+1 && len(check) == maxIndex+1
 //@ loop 10: invariant forall i2, k int :: seen(i2) && 0 <= i2 && i2 < len(table) && spec_nz(table, i2, k) ==>
 //@     ret[row[i2]+k] == table[i2][k] && check[row[i2]+k] == i2
 //@ loop 10: invariant forall u int :: 0 <= u && u < idx10 ==> ret[row[i]+rng10[u]] == table[i][rng10[u]] && check[row[i]+rng10[u]] == i
-//@ loop 10: invariant forall p int :: 0 <= p && p <= maxIndex ==> check[p] == -1 ||
+//@ loop 10: invariant forall p int :: 0 <= p && p <= maxIndex ==> (check[p] == -1 && ret[p] == 0) ||
 //@     (0 <= check[p] && check[p] < len(table) && (seen(check[p]) || check[p] == i) && spec_nz(table, check[p], p-row[check[p]]))
 //
 // trim of leading blank slots: "sh" slots have been cut so far, sh == before(len(ret)) - len(ret)
